@@ -1,6 +1,8 @@
 \* C03 negative: a parser that knows only a fixed set of escapes (an escaped backtick is not one) must be rejected
 CONSTANTS
   EscMode = "fixed"
+  CommentGuard = TRUE
+  NlReset = FALSE
   MaxPre = 1
   EmitCases = FALSE
 INIT Init
